@@ -347,6 +347,18 @@ func (g *gen) poolOp(caller int, keys []string, opq *uint32, allowAppend bool) w
 			op.Keys = append(op.Keys, op.Keys[0])
 			op.Quiets = append(op.Quiets, g.p(1, 2))
 		}
+		if g.p(1, 4) {
+			// what the text parser hands to the handler: every key with opaque 0 and not
+			// quiet, duplicates therefore indistinguishable
+			op.SameOpq = true
+			for i := range op.Quiets {
+				op.Quiets[i] = false
+			}
+			if g.p(1, 2) {
+				op.Keys = append(op.Keys, op.Keys[g.n(len(op.Keys))])
+				op.Quiets = append(op.Quiets, false)
+			}
+		}
 		*opq += uint32(len(op.Keys))
 	}
 	return op
